@@ -67,3 +67,57 @@ Proof.
   destruct (from_slice_means e o inflate bytes p pic nm ih rest Hok Ep Hparse Hdec H1 H2 H3 Hz Hu Hw) as (Hwf & Hsem & Hstream).
   eapply (optimize_png_lossless_partial L e o inflate p); eauto. split; assumption.
 Qed.
+
+(* ---------------------------------------------------------------- the same with alpha optimisation allowed (C03) *)
+From OxiVerif Require Import Proofs.LiftAlpha.
+
+Theorem optimize_png_alpha_partial (L : leaves) e o (inflate : list Z -> option (list Z)) p out pic :
+  scale_16 o = false -> means pic (raw p) ->
+  (forall d s, inflate (z_deflate e d s) = Some s) ->
+  (exists stream, inflate (idat_data p) = Some stream /\
+     spec_decode_stream (width (hdr (raw p))) (height (hdr (raw p))) (spec_color_of (ctype (hdr (raw p)))) (depth (hdr (raw p)))
+                        (interlaced (hdr (raw p))) stream = Some pic) ->
+  optimize_png e p o = Ok out ->
+  exists p', out = output p' /\
+    (container_ok p' -> exists pic', spec_decode_png inflate (output p') = Some pic' /\ pic_aequiv pic pic').
+Proof.
+  intros Hs Hm Hz (stream & Hinf & Hdec) H. unfold optimize_png in H.
+  destruct (preprocess_keeps_lossy e (aux_chunks p) o) as [Ea Es].
+  destruct (preprocess_chunks e (aux_chunks p) o) as [aux o'] eqn:Epre. cbn [snd] in Ea, Es. cbn [raw idat_data aux_chunks frames] in H.
+  destruct (optimize_raw e o' (raw p) _) as [r|?|?] eqn:Er; cbn [bind] in H; try discriminate.
+  destruct r as [c|].
+  - match type of H with bind (bind ?X _) _ = _ => destruct X as [fr|?|?] eqn:Efr end; cbn [bind] in H; try discriminate.
+    injection H as <-. eexists. split; [reflexivity|]. intros (C1 & C2 & C3 & C4 & C5).
+    assert (Ham : ameans pic (raw p)) by (exists pic; split; [exact Hm|apply pic_aequiv_refl]).
+    destruct (emitted_stream_alpha_partial L e o' (raw p) _ c pic ltac:(congruence) Ham Er) as (d & st & pic' & Ed & Hd & Hq).
+    exists pic'. split; [|exact Hq].
+    rewrite (output_decodes inflate _ C1 C2 C3 C4 C5). cbn [raw idat_data]. rewrite Ed, Hz. exact Hd.
+  - cbn [bind] in H. injection H as <-. eexists. split; [reflexivity|]. intros (C1 & C2 & C3 & C4 & C5).
+    exists pic. split; [|apply pic_aequiv_refl].
+    rewrite (output_decodes inflate _ C1 C2 C3 C4 C5). cbn [raw idat_data]. rewrite Hinf. exact Hdec.
+Qed.
+
+Theorem optimize_from_memory_alpha_partial (L : leaves) e o (inflate : list Z -> option (list Z)) bytes out pic nm ih rest :
+  scale_16 o = false ->
+  bytes_ok bytes ->
+  spec_parse_png bytes = Some ((nm, ih) :: rest) ->
+  spec_decode_chunks inflate ((nm, ih) :: rest) = Some pic ->
+  List.filter (named spec_IHDR) rest = [] ->
+  (length (List.filter (named spec_PLTE) rest) <= 1)%nat -> (length (List.filter (named spec_tRNS) rest) <= 1)%nat ->
+  (forall x n y, z_inflate e x n = Ok y -> inflate x = Some y /\ bytes_ok y) ->
+  (forall d s, inflate (z_deflate e d s) = Some s) ->
+  (forall p, from_slice e bytes o = Ok p ->
+     spec_raw_size (width (hdr (raw p))) (height (hdr (raw p))) (bpp (hdr (raw p))) (interlaced (hdr (raw p))) true <= usize_max /\
+     wf_ctype (ctype (hdr (raw p))) (depth (hdr (raw p)))) ->
+  optimize_from_memory e o bytes = Ok out ->
+  out = bytes \/ exists p', out = output p' /\
+    (container_ok p' -> exists pic', spec_decode_png inflate (output p') = Some pic' /\ pic_aequiv pic pic').
+Proof.
+  intros Hs Hok Hparse Hdec H1 H2 H3 Hz Hzd Hside H. unfold optimize_from_memory in H.
+  destruct (from_slice e bytes o) as [p|?|?] eqn:Ep; cbn [bind] in H; try discriminate.
+  destruct (optimize_png e p o) as [o1|?|?] eqn:Eo; cbn [bind] in H; try discriminate.
+  destruct (is_fully_optimized _ _ o); injection H as <-; [left; reflexivity|right].
+  destruct (Hside p eq_refl) as [Hu Hw].
+  destruct (from_slice_means e o inflate bytes p pic nm ih rest Hok Ep Hparse Hdec H1 H2 H3 Hz Hu Hw) as (Hwf & Hsem & Hstream).
+  eapply (optimize_png_alpha_partial L e o inflate p); eauto. split; assumption.
+Qed.
